@@ -86,6 +86,8 @@ def gmres_restart(LinOp, b, x0 , N, max_iterations, threshold, resets = 4):
 def gmres( LinOp, b, x0, N, max_iterations, threshold):
 
     converged = False
+    # the Krylov space of an N x N system has at most N dimensions: further Arnoldi steps only orthogonalise roundoff
+    max_iterations = min(max_iterations, N)
     
     r = b - LinOp.matvec(x0)
     
